@@ -73,7 +73,7 @@ def py_callable():
     return ns["fcall"]
 
 
-HEAVY = ("export:A:qiskit", "export:A:cirq", "gate:Q:qiskit", "gate:S:qiskit")
+HEAVY = ("export:A:qiskit", "export:A:cirq", "gate:Q:qiskit", "gate:S:qiskit", "export_mut:A:qiskit")
 
 
 def menu(heavy=True):
@@ -97,6 +97,7 @@ def _menu():
     ops.append(("oraclize:O:True", ["O"], "create"))
     ops.append(("grover:Q", ["Q"], "create"))
     ops.append(("grover:O", ["O"], "create"))
+    ops.append(("grover_true:Q", ["Q"], "create"))
     ops.append(("grover_el:V:2", ["V"], "create"))
     ops.append(("dj:Q", ["Q"], "create"))
     ops.append(("dj:T", ["T"], "create"))
@@ -105,6 +106,7 @@ def _menu():
     for fmt in ("qasm", "qiskit", "sympy", "cirq"):
         ops.append(("export:A:" + fmt, ["A"], "observe"))
     ops.append(("export:V:qasm", ["V"], "observe"))
+    ops.append(("export_mut:A:qiskit", ["A"], "observe"))
     ops.append(("decompile:A", ["A"], "observe"))
     ops.append(("decopt:V", ["V"], "observe"))
     ops.append(("truth:A", ["A"], "observe"))
@@ -252,6 +254,18 @@ def perform(op, slots):
         return "orc:" + parts[1], oraclize(slots[parts[1]], True if y == "True" else int(y))
     if k == "grover":
         return "grover:" + parts[1], Grover(slots[parts[1]])
+    if k == "grover_true":
+        return "grovertrue:" + parts[1], Grover(slots[parts[1]], True)
+    if k == "export_mut":
+        # what export() hands out belongs to the caller: adding measurements to it must not show in the next export
+        r = slots[parts[1]].export(parts[2])
+        first = [(i.operation.name, [r.find_bit(q).index for q in i.qubits]) for i in r.data]
+        r.measure_all()
+        r2 = slots[parts[1]].export(parts[2])
+        second = [(i.operation.name, [r2.find_bit(q).index for q in i.qubits]) for i in r2.data]
+        if second != first:
+            return None, "EXPORT-DAMAGED: the export after the caller changed the first exported object differs from the first export: %r" % (second[-3:],)
+        return None, second
     if k == "grover_el":
         return "groverel:" + parts[1], Grover(slots[parts[1]], int(parts[2]))
     if k == "dj":
@@ -428,6 +442,8 @@ def step(op, history, slots, refs):
             st + " " + (fp if st == "raises" else ""), ref[0] + " " + (ref[1] if ref[0] == "raises" else ""))})
     elif st == "raises" and fp.split(":")[0] != ref[1].split(":")[0]:
         viol.append({"invariant": "no breakage", "why": "raises %s, reference raises %s" % (fp, ref[1])})
+    elif st == "ok" and "EXPORT-DAMAGED" in fp:
+        viol.append({"invariant": "no damage", "why": fp[:300]})
     elif st == "ok" and fp != ref[1]:
         viol.append({"invariant": "no dependence", "why": "result differs from the same operation run right after creating its operands",
                      "here": fp[:400], "reference": ref[1][:400]})
